@@ -256,7 +256,21 @@ def run(ctx):
                 pass
 
 
+_run_core = run
+
+
+def run(ctx):
+    _run_core(ctx)
+    if ctx.n_new() == 0 and ctx.driver_ok:
+        from harness.common import run_demo
+        run_demo(ctx, 'demo_tr3.py', [1 + ctx.seed], 'c14-code-vs-generated-vs-model',
+                 'EM responsibilities handed to em_step vs generated expression vs backward model', env_extra=dict(DEMO_SECTIONS='g'))
+
+
 def replay(rep):
+    if rep['replay'].get('kind') == 'demo':
+        from harness.common import replay_demo
+        return replay_demo(rep['replay'])
     from harness.build import build_from_table
     r = rep['replay']
     if r['kind'] != 'c14':
